@@ -64,96 +64,57 @@ theorem index_inv {α} (ops : List (Op α)) (name : String) (rows : List α) (i 
 
 /-! ## FETCH positions exactly -/
 
-/-
-  FULL STATEMENT (the manual's FETCH).  FALSE for the current code — see `fetch_spec_counterexample`:
-
-  theorem fetch_spec (rows : List α) (index : Int) (f : Bool) (p : Pos)
-      (hinv : -1 ≤ index ∧ index ≤ rows.length) (hlen : LenOK rows) (hn : inI64 p.number) :
-      (CState.opened rows index f).fetch p = .ok (specFetch rows index p)
-
-  i.e. the row returned is rows[target] iff 0 ≤ target < len, where target is the mathematical
-  (unbounded) position addressed; otherwise nothing is returned and the pointer rests at −1 / len.
-  `c.index + number` in (*Cursor).Fetch is a Go `int` addition: for RELATIVE it wraps around.
--/
-
-/-- FETCH RELATIVE with an offset for which `index + number` leaves int64: the pointer lands on the
-    wrong side.  Two rows, pointer on the second row, `FETCH RELATIVE 9223372036854775807`: the
-    manual's semantics rests after the last row (index 2); the code rests before the first (−1), so
-    the next FETCH NEXT returns the first row again.  Reproduced on the real code (finding F9). -/
-theorem fetch_spec_counterexample :
-    ∃ (rows : List Nat) (index : Int) (p : Pos),
-      (-1 ≤ index ∧ index ≤ rows.length) ∧ LenOK rows ∧ inI64 p.number ∧
-      (CState.opened rows index true).fetch p ≠ .ok (specFetch rows index p) ∧
-      (CState.opened rows index true).fetch p = .ok (.opened rows (-1) true, none) ∧
-      specFetch rows index p = (.opened rows 2 true, none) := by
-  refine ⟨[10, 20], 1, .relative 9223372036854775807, by decide, by decide, by decide, ?_, rfl, rfl⟩
-  intro h
-  have h1 : (CState.opened [10, 20] 1 true).fetch (.relative 9223372036854775807)
-      = .ok (.opened [10, 20] (-1) true, none) := rfl
-  have h2 : specFetch [10, 20] 1 (.relative 9223372036854775807) = (.opened [10, 20] 2 true, none) := rfl
-  rw [h1, h2] at h
-  simp at h
-
-/-- the same on the other side: from before-the-first, `FETCH RELATIVE −9223372036854775808` rests
-    AFTER the last row (the next FETCH PRIOR returns the last row) -/
-theorem fetch_spec_counterexample_neg :
-    ∃ (rows : List Nat) (p : Pos),
-      LenOK rows ∧ inI64 p.number ∧
-      (CState.opened rows (-1) false).fetch p = .ok (.opened rows 2 true, none) ∧
-      specFetch rows (-1) p = (.opened rows (-1) true, none) :=
-  ⟨[10, 20], .relative (-9223372036854775808), by decide, by decide, rfl, rfl⟩
-
-/-- FETCH does what the manual says whenever the Go addition does not overflow
-    (always for NEXT / PRIOR / FIRST / LAST / ABSOLUTE n, any n) -/
-theorem fetch_spec_partial {α} (rows : List α) (index : Int) (f : Bool) (p : Pos)
-    (hinv : -1 ≤ index ∧ index ≤ rows.length) (hlen : LenOK rows) (hno : NoOverflow p index) :
+/-- FULL STATEMENT of the manual's FETCH (holds since /repo 63b833c made FETCH RELATIVE saturate; before,
+    `c.index + number` wrapped around — finding F9 — and only a no-overflow version was provable):
+    the row returned is rows[target] iff 0 ≤ target < len, where target is the mathematical (unbounded)
+    position addressed by NEXT / PRIOR / FIRST / LAST / ABSOLUTE n (any n) / RELATIVE n (any int64 n);
+    otherwise nothing is returned and the pointer rests at −1 / len. -/
+theorem fetch_spec {α} (rows : List α) (index : Int) (f : Bool) (p : Pos)
+    (hinv : -1 ≤ index ∧ index ≤ rows.length) (hlen : LenOK rows) (hn : NumberOK p) :
     (CState.opened rows index f).fetch p = .ok (specFetch rows index p) := by
-  have hm := moveIndex_eq_target rows index p hinv hlen hno
+  obtain ⟨hneg, hge, heq⟩ := moveIndex_vs_target rows index p hinv hlen hn
   have hl : (0 : Int) ≤ rows.length := by omega
-  unfold specFetch
-  rcases fetch_cases rows index f p _ hm with ⟨h0, h'⟩ | ⟨h0, h1, h'⟩ | ⟨h0, h1, h'⟩ <;> rw [h'] <;>
-    simp only [recordLen] at *
-  · rw [clamp_below h0 hl]
+  simp only [specFetch]
+  rcases fetch_cases rows index f p _ rfl with ⟨h0, h'⟩ | ⟨h0, h1, h'⟩ | ⟨h0, h1, h'⟩ <;> rw [h']
+  · have ht := hneg.mp h0
+    rw [clamp_below ht hl]
     have : ¬ (0 ≤ target p index rows.length) := by omega
     simp [this]
-  · rw [clamp_above h1 hl]
+  · have ht := hge.mp h1
+    rw [clamp_above ht hl]
     have h2 : ¬ (target p index rows.length < (rows.length : Int)) := by omega
-    simp [h2]
-  · rw [clamp_in h0 h1]
+    simp [h2, recordLen]
+  · have ht := heq h0 h1
+    simp only [recordLen] at h0 h1 ht ⊢
+    rw [ht] at h0 h1 ⊢
+    rw [clamp_in h0 h1]
     simp [h0, h1]
 
-/-- the overflow is the ONLY way the code departs from the manual: for an int64 offset, FETCH RELATIVE
-    agrees with the specification if and only if `index + n` fits int64 -/
-theorem fetch_relative_spec_iff_no_overflow {α} (rows : List α) (index n : Int) (f : Bool)
-    (hinv : -1 ≤ index ∧ index ≤ rows.length) (hlen : LenOK rows) (hn : inI64 n) :
-    (CState.opened rows index f).fetch (.relative n) = .ok (specFetch rows index (.relative n))
-      ↔ inI64 (index + n) := by
+/-- in particular the huge offsets of the former finding F9: from inside the result RELATIVE maxint rests
+    AFTER the last row, from before the first RELATIVE minint rests BEFORE the first -/
+theorem fetch_relative_extremes {α} (rows : List α) (index : Int) (f : Bool)
+    (hinv : -1 ≤ index ∧ index ≤ rows.length) (hlen : LenOK rows) :
+    (CState.opened rows index f).fetch (.relative maxI64) =
+        .ok (.opened rows rows.length true, none) ∧
+    (CState.opened rows index f).fetch (.relative minI64) = .ok (.opened rows (-1) true, none) := by
+  have hl : (0 : Int) ≤ rows.length := by omega
+  have e1 := fetch_spec rows index f (.relative maxI64) hinv hlen (by simp [NumberOK, inI64, minI64, maxI64])
+  have e2 := fetch_spec rows index f (.relative minI64) hinv hlen (by simp [NumberOK, inI64, minI64, maxI64])
+  unfold LenOK at hlen
+  simp only [maxI64, minI64] at *
   constructor
-  · intro h
-    by_cases hin : inI64 (index + n)
-    · exact hin
-    · exfalso
-      have hl : (0 : Int) ≤ rows.length := by omega
-      unfold LenOK maxI64 at hlen
-      unfold inI64 minI64 maxI64 at hn hin
-      unfold specFetch at h
-      simp only [target] at h
-      have hcases : 9223372036854775807 < index + n ∨ index + n < -9223372036854775808 := by omega
-      rcases hcases with hov | hun
-      · have hw : wrap64 (index + n) = index + n - 18446744073709551616 :=
-          wrap64_add_over (by unfold maxI64; omega) (by unfold minI64; omega)
-        have hge : (rows.length : Int) ≤ index + n := by omega
-        rw [clamp_above hge hl] at h
-        rcases fetch_cases rows index f (.relative n) _ rfl with ⟨h0, h'⟩ | ⟨h0, h1, h'⟩ | ⟨h0, h1, h'⟩ <;>
-          rw [h'] at h <;> simp only [moveIndex, recordLen, Except.ok.injEq, Prod.mk.injEq, CState.opened.injEq] at * <;> omega
-      · have hw : wrap64 (index + n) = index + n + 18446744073709551616 :=
-          wrap64_add_under (by unfold minI64; omega) (by unfold minI64; omega)
-        have hlt : index + n < 0 := by omega
-        rw [clamp_below hlt hl] at h
-        rcases fetch_cases rows index f (.relative n) _ rfl with ⟨h0, h'⟩ | ⟨h0, h1, h'⟩ | ⟨h0, h1, h'⟩ <;>
-          rw [h'] at h <;> simp only [moveIndex, recordLen, Except.ok.injEq, Prod.mk.injEq, CState.opened.injEq] at * <;> omega
-  · intro h
-    exact fetch_spec_partial rows index f (.relative n) hinv hlen h
+  · rw [e1]
+    simp only [specFetch]
+    simp only [target]
+    rw [clamp_above (by omega) hl]
+    have : ¬ (index + 9223372036854775807 < (rows.length : Int)) := by omega
+    simp [this]
+  · rw [e2]
+    simp only [specFetch]
+    simp only [target]
+    rw [clamp_below (by omega) hl]
+    have : ¬ (0 ≤ index + -9223372036854775808) := by omega
+    simp [this]
 
 /-- a row that is returned is the row of the OPEN-time list at the new pointer -/
 theorem fetch_returns_row_at_pointer {α} (rows : List α) (index : Int) (f : Bool) (p : Pos)
@@ -347,11 +308,14 @@ theorem open_takes_snapshot {α} (s : Scope α) (n : String) (rows : List α)
 
 /-! ## non-vacuity: the hypotheses are satisfiable, the model does something -/
 
-/-- hypotheses of `fetch_spec_partial` hold together, also for a huge offset that does not overflow -/
+/-- hypotheses of `fetch_spec` hold together, also for the offsets that used to wrap around -/
 example : ∃ (rows : List Nat) (i : Int) (p : Pos),
-    (-1 ≤ i ∧ i ≤ rows.length) ∧ LenOK rows ∧ NoOverflow p i ∧
-    (CState.opened rows i false).fetch p = .ok (.opened rows 3 true, none) :=
-  ⟨[1, 2, 3], -1, .relative 9223372036854775807, by decide, by decide, by show inI64 _; decide, rfl⟩
+    (-1 ≤ i ∧ i ≤ rows.length) ∧ LenOK rows ∧ NumberOK p ∧
+    (CState.opened rows i true).fetch p = .ok (.opened rows 3 true, none) :=
+  ⟨[1, 2, 3], 1, .relative 9223372036854775807, by decide, by decide, by show inI64 _; decide, rfl⟩
+
+example : (CState.opened [1, 2, 3] (-1) false).fetch (.relative (-9223372036854775808))
+    = .ok (.opened [1, 2, 3] (-1) true, none) := rfl
 
 /-- … and with a row returned -/
 example : (CState.opened [10, 20, 30] 2 true).fetch (.relative (-2)) = .ok (.opened [10, 20, 30] 0 true, some 10) := rfl
